@@ -394,16 +394,19 @@ def check_run(case, run, obs, mism):
         if kind != "graph":
             return default
         if omit:
-            # an omitted position received the inner bound value of ANOTHER position whose original
-            # name equals the omitted position's current name
-            for t, kw in obs["rawlog"]:
-                for i in omit:
-                    if ORIG[i] in kw:
-                        for q in range(P):
-                            if q != i and prof[q] in "bx" and ORIG[q] == cur[i] and kw[ORIG[i]] == f"bound.{ORIG[q]}":
-                                return K_LEAK
-            if bad:
+            # an omitted position whose name the model's batch-unaware walk resolves wrongly
+            # (or a rejected run while some name is resolved wrongly: validation asks every input)
+            wrong = {i for t, kw in obs["rawlog"] for i in omit if ORIG[i] in kw and kw[ORIG[i]] != fallback_value(prof, i)}
+            if (wrong & bad) or (bad and not obs["rawlog"]):
                 return K_RESOLVE
+            # an omitted position received the inner bound value of ANOTHER position whose original
+            # name equals the omitted position's current name (inner binding surfacing under the
+            # inner graph's private name)
+            for t, kw in obs["rawlog"]:
+                for i in wrong:
+                    for q in range(P):
+                        if q != i and prof[q] in "bx" and ORIG[q] == cur[i] and kw[ORIG[i]] == f"bound.{ORIG[q]}":
+                            return K_LEAK
             return "graphnode-default-args"
         return default
 
@@ -503,37 +506,54 @@ def _alpha_nodes(shape, dparams, wrap):
     return nodes
 
 
-def _rename_node(n, sigma, how):
-    ins = {p: sigma[p] for p in n.inputs if sigma[p] != p}
-    outs = {p: sigma[p] for p in n.outputs if sigma[p] != p}
+def _walk_differs(batches, truth):
+    """CLASSIFICATION ONLY: does a reverse walk over the entries that ignores batch boundaries
+    (the shape of GraphNode._resolve_original_input_name, modelled as GNResolve in Rename.tla)
+    resolve some current name to another original than the position-based truth {current: original}?"""
+    entries = [e for b in batches for e in b]
+    for name, orig in truth.items():
+        c = name
+        for old, new in reversed(entries):
+            if new == c:
+                c = old
+        if c != orig:
+            return True
+    return False
+
+
+def plan_renames(names, sigma, how):
+    """The batches ({old: new} dicts, in call order) that rename the tuple `names` to sigma(names)."""
+    mp = {p: sigma[p] for p in names if sigma[p] != p}
+    if not mp:
+        return []
     if how == "batch":
-        if ins:
-            n = n.with_inputs(ins)
-        if outs:
-            n = n.with_outputs(outs)
-        return n
-    if how == "temps":     # chain through temporaries, two calls per kind
-        if ins:
-            n = n.with_inputs({p: "tmp_" + p for p in ins}).with_inputs({"tmp_" + p: q for p, q in ins.items()})
-        if outs:
-            n = n.with_outputs({p: "tmp_" + p for p in outs}).with_outputs({"tmp_" + p: q for p, q in outs.items()})
-        return n
+        return [mp]
+    if how == "temps":     # chain through temporaries, two calls
+        return [{p: "tmp_" + p for p in mp}, {"tmp_" + p: q for p, q in mp.items()}]
     # "single": one rename per call; a name is moved when its target is free, cycles are broken
     # through one temporary
-    for attr, mp in (("inputs", dict(ins)), ("outputs", dict(outs))):
-        f = n.with_inputs if attr == "inputs" else n.with_outputs
-        while mp:
-            names = set(getattr(n, attr))
-            free = [p for p, q in mp.items() if q not in names]
-            if free:
-                p = free[0]
-                n = f({p: mp.pop(p)})
-            else:
-                p = sorted(mp)[0]
-                n = f({p: "tmp_" + p})
-                mp["tmp_" + p] = mp.pop(p)
-            f = n.with_inputs if attr == "inputs" else n.with_outputs
-    return n
+    cur, todo, plan = list(names), dict(mp), []
+    while todo:
+        free = [p for p, q in todo.items() if q not in cur]
+        if free:
+            p = free[0]
+            b = {p: todo.pop(p)}
+        else:
+            p = sorted(todo)[0]
+            b = {p: "tmp_" + p}
+            todo["tmp_" + p] = todo.pop(p)
+        cur = [b.get(x, x) for x in cur]
+        plan.append(b)
+    return plan
+
+
+def _rename_node(n, sigma, how):
+    pin, pout = plan_renames(n.inputs, sigma, how), plan_renames(n.outputs, sigma, how)
+    for b in pin:
+        n = n.with_inputs(b)
+    for b in pout:
+        n = n.with_outputs(b)
+    return n, pin
 
 
 def run_alpha(case):
@@ -541,6 +561,7 @@ def run_alpha(case):
     shape = [tuple(s) for s in case["shape"]]
     sigma = case["sigma"]
     mism = []
+    k = "alpha-rename-graphnode" if case["wrap"] else "alpha-rename"
     with warnings.catch_warnings():
         warnings.simplefilter("ignore")
         try:
@@ -548,13 +569,19 @@ def run_alpha(case):
             del LOG[:]
             r0 = _SYNC.run(Graph(base), {p: f"in.{p}" for p in case["provided"]})
             log0 = _norm_log()
-            ren = [_rename_node(n, sigma, case["how"]) for n in base]
+        except Exception:  # noqa: BLE001 - the original is not a program of the family
+            return []
+        try:
+            rp = [_rename_node(n, sigma, case["how"]) for n in base]
+            ren = [x[0] for x in rp]
+            if case["wrap"] and case["dparams"] and any(
+                    _walk_differs([list(b.items()) for b in pin], {sigma[p]: p for p in n.inputs}) for n, (_, pin) in zip(base, rp)):
+                k = K_RESOLVE      # a wrapped node's default lookup goes through the batch-unaware walk
             del LOG[:]
             r1 = _SYNC.run(Graph(ren), {sigma[p]: f"in.{p}" for p in case["provided"]})
             log1 = _norm_log()
         except Exception as e:  # noqa: BLE001
-            return [("alpha-rename-graphnode" if case["wrap"] else "alpha-rename", f"exception {type(e).__name__}: {str(e)[:200]}")]
-    k = "alpha-rename-graphnode" if case["wrap"] else "alpha-rename"
+            return [(k, f"exception {type(e).__name__}: {str(e)[:200]}")]
     if r0.status.value != "completed":
         return []  # not a program of the family (original itself does not run)
     if r1.status.value != "completed":
